@@ -8,12 +8,23 @@ sys.path.insert(0, os.path.dirname(os.path.abspath(__file__)))
 import vlib
 
 
-def gen(module, consts, invariants, tag, workers=8, timeout=900, simulate=None, depth=None, seed=None, xmx="8g"):
-    """Run TLC on spec/<module>.tla with the given constants; returns (behaviours, TlcResult)."""
+def gen(module, consts, invariants, tag, workers=8, timeout=900, simulate=None, depth=None, seed=None, xmx="8g",
+        defs=None):
+    """Run TLC on spec/<module>.tla with the given constants (defs: constant -> TLA+ expression,
+    substituted through a wrapper module); returns (behaviours, TlcResult)."""
     d = vlib.spec_workdir("gen_" + tag, [module + ".tla"])
     lines = ["SPECIFICATION Spec", "CONSTANTS"]
     for k, v in consts.items():
-        lines.append(" %s = %s" % (k, vlib.tla_value(vlib.TSet(v)) if isinstance(v, (set, frozenset)) else vlib.tla_value(v)))
+        lines.append(" %s = %s" % (k, vlib.tla_value(vlib.TSet(sorted(v))) if isinstance(v, (set, frozenset)) else vlib.tla_value(v)))
+    top = module
+    if defs:
+        top = "G_" + module
+        with open(os.path.join(d, top + ".tla"), "w") as f:
+            f.write("---- MODULE %s ----\nEXTENDS %s\n" % (top, module))
+            for k, e in defs.items():
+                f.write("D_%s == %s\n" % (k, e))
+                lines.append(" %s <- D_%s" % (k, k))
+            f.write("====\n")
     lines.append("INVARIANTS " + " ".join(invariants))
     lines.append("CHECK_DEADLOCK FALSE")
     with open(os.path.join(d, "G.cfg"), "w") as f:
@@ -21,7 +32,7 @@ def gen(module, consts, invariants, tag, workers=8, timeout=900, simulate=None, 
     extra = []
     if seed is not None:
         extra += ["-seed", str(seed)]
-    r = vlib.tlc(d, module + ".tla", "G.cfg", workers=workers, timeout=timeout, simulate=simulate, depth=depth,
+    r = vlib.tlc(d, top + ".tla", "G.cfg", workers=workers, timeout=timeout, simulate=simulate, depth=depth,
                  extra=extra, xmx=xmx)
     if r.violated or r.temporal or (not r.completed and not simulate):
         return None, r
@@ -73,6 +84,52 @@ def emit_leg(rep, srcdir, tier, pid="C09"):
         rep.add("traces_validated_against_impl", len(behs))
         if behs:
             rep.sample({"emit_behaviour": behs[len(behs) // 2]})
+        for line in f[:5]:
+            k = int(line.split()[1].rstrip(":"))
+            fails.append((line, behs[k - 1]))
+    return fails
+
+
+def rle_text(behs):
+    out = []
+    for o in behs:
+        parts = [str(len(o["inp"]))] + [str(x) for x in o["inp"]] + [str(o["cap"]), str(len(o["calls"]))]
+        for c in o["calls"]:
+            parts += [str(c["given"]), str(c["used"]), "1" if c["full"] else "0", str(c["st"]), str(c["nblock"])]
+        parts += [str(len(o["q"]))] + [str(x) for x in o["q"]]
+        out.append(" ".join(parts))
+    return "\n".join(out) + "\n"
+
+
+def rle_leg(rep, srcdir, tier, collect_into=None):
+    """Rle.tla (machine = greedy rule, checked by TLC) replayed through collect()."""
+    exe = vlib.build_harness("replay_rle", "replay_rle.c", srcdir, extra=[os.path.join(srcdir, "crctab.c")])
+    run = lambda x, n: "[j \\in 1..%d |-> %d]" % (n, x)
+    longruns = "{%s}" % ", ".join(
+        ["%s \\o %s" % (run(7, n), t) for n in ((259, 260, 518) if tier == "quick" else (258, 259, 260, 261, 518, 519))
+         for t in (("<<>>", "<<8>>") if tier == "quick" else ("<<>>", "<<8>>", "<<8, 8>>"))] +
+        ["<<8>> \\o %s \\o <<7>>" % run(7, 262)])
+    cfgs = [dict(defs=dict(Inputs="UNION {[1..n -> {0, 1}] : n \\in 0..8}", Caps="1..7"), MaxCalls=3),
+            dict(defs=dict(Inputs="UNION {[1..n -> {0, 1, 2}] : n \\in 0..5}", Caps="1..5"), MaxCalls=3),
+            dict(defs=dict(Inputs=longruns, Caps="{5, 6, 10}" if tier == "quick" else "{4, 5, 6, 9, 10, 11}"), MaxCalls=2)]
+    if tier == "thorough":
+        cfgs += [dict(defs=dict(Inputs="UNION {[1..n -> {0, 1}] : n \\in 9..10}", Caps="1..8"), MaxCalls=3),
+                 dict(defs=dict(Inputs="UNION {[1..n -> {0, 1}] : n \\in 0..7}", Caps="1..6"), MaxCalls=4)]
+    fails = []
+    for i, c in enumerate(cfgs):
+        behs, r = gen("Rle", dict(MaxCalls=c["MaxCalls"]), ["Greedy", "Export"], "rle%d" % i, defs=c["defs"], timeout=1500)
+        if behs is None:
+            raise vlib.Infra("Rle.tla: machine differs from the greedy rule for %s:\n%s" % (c, r.text[-1500:]))
+        rep.add("states", r.distinct)
+        rep.add("transitions", r.generated)
+        f, summary, rc = run_harness(exe, rle_text(behs))
+        if collect_into is not None:
+            collect_into.extend({"inp": b["inp"], "cap": b["cap"], "used": b["used"]} for b in behs)
+        rep.add("rle_behaviours_replayed", len(behs))
+        rep.add("traces_validated_against_impl", len(behs))
+        if behs:
+            b = behs[len(behs) // 3]
+            rep.sample({"rle_behaviour": {k: (v if k != "inp" or len(v) < 40 else v[:20] + ["..."]) for k, v in b.items() if k != "q"}})
         for line in f[:5]:
             k = int(line.split()[1].rstrip(":"))
             fails.append((line, behs[k - 1]))
